@@ -7,36 +7,6 @@ namespace JjModel.Revset
 section
 variable {g : Graph} {vh : List Nat}
 
-/-- every member of a bounded set lies below a head of the set -/
-theorem exists_head_above (ht : Topo g.par) {S : Nat → Prop} {N : Nat} (hS : ∀ x, S x → x < N) :
-    ∀ (d x : Nat), N - x ≤ d → S x → ∃ h, HeadsOf g S h ∧ Path g.par h x := by
-  intro d
-  induction d with
-  | zero => intro x hd hx; have := hS x hx; omega
-  | succ d ih =>
-    intro x hd hx
-    by_cases hh : HeadsOf g S x
-    · exact ⟨x, hh, Path.refl _ _⟩
-    · have : ∃ q, S q ∧ q ≠ x ∧ Path g.par q x := by
-        apply Classical.byContradiction
-        intro hn
-        exact hh ⟨hx, hn⟩
-      obtain ⟨q, hq, hne, hp⟩ := this
-      have := hp.le ht
-      have := hS q hq
-      obtain ⟨h, hh', hhq⟩ := ih q (by omega) hq
-      exact ⟨h, hh', hhq.trans hp⟩
-
-theorem ancAll_heads (ht : Topo g.par) {S : Nat → Prop} {N : Nat} (hS : ∀ x, S x → x < N) :
-    AncAll g (HeadsOf g S) = AncAll g S := by
-  funext p
-  apply propext
-  constructor
-  · rintro ⟨x, hx, hp⟩; exact ⟨x, hx.1, hp⟩
-  · rintro ⟨x, hx, hp⟩
-    obtain ⟨h, hh, hhx⟩ := exists_head_above ht hS (N - x) x (Nat.le_refl _) hx
-    exact ⟨h, hh, hhx.trans hp⟩
-
 theorem all_lt (ctx : Ctx g vh) {p : Nat} (h : All g vh p) : p < g.size := by
   obtain ⟨x, hx, hp⟩ := h
   have := hp.le ctx.wf.topo
